@@ -479,6 +479,7 @@ type Contract struct {
 	Family   string // non-empty: pattern contract
 	Decreases map[int]Expr
 	Establishes map[int][]*Clause // checked on loop entry only
+	ExitAsserts map[int][]*Clause // checked (then assumed) where the loop is left through its header test
 	Implicit bool   // synthesised frame-only contract (frame sweep)
 	Before   map[string][]*Clause // proof hints: asserted (then assumed) before a call to the named callee
 }
@@ -703,6 +704,18 @@ func loadContractFile(path string, cs *ContractSet) error {
 						return fail(err)
 					}
 					cur.Establishes[k] = append(cur.Establishes[k], &Clause{Kind: "establishes", Label: label, Tags: tags, Src: b2, E: e, Loop: k, Line: it})
+				case "exit":
+					// loop k exit assert label: expr
+					b1 := strings.TrimSpace(strings.TrimPrefix(body, "assert"))
+					label, tags, b2 := parseLabelTags(b1)
+					e, err := parseSpecExpr(b2)
+					if err != nil {
+						return fail(err)
+					}
+					if cur.ExitAsserts == nil {
+						cur.ExitAsserts = map[int][]*Clause{}
+					}
+					cur.ExitAsserts[k] = append(cur.ExitAsserts[k], &Clause{Kind: "exit", Label: label, Tags: tags, Src: b2, E: e, Loop: k, Line: it})
 				case "modifies":
 					locs, err := parseModLocs(body)
 					if err != nil {
